@@ -22,7 +22,10 @@ if ! git -C /repo diff --quiet; then echo "/repo is dirty, refusing"; exit 2; fi
 git -C /repo apply "$out/patch.diff" || { echo "patch does not apply to /repo"; exit 2; }
 for p in "$@"; do
   echo "== check $p on the changed tree"
+  cp "evidence/$p.json" "/tmp/evidence_$p.bak" 2>/dev/null      # evidence of a run on a changed tree is never kept
   ./check "$p" quick > "$out/check_$p.txt" 2>&1; rc=$?
+  cp "evidence/$p.json" "$out/evidence_$p.json" 2>/dev/null
+  cp "/tmp/evidence_$p.bak" "evidence/$p.json" 2>/dev/null
   echo "rc=$rc" >> "$out/check_$p.txt"; tail -4 "$out/check_$p.txt"
   for f in $(grep -o 'replay=[^ ]*' "$out/check_$p.txt" | head -3 | cut -d= -f2); do cp "$f" "$out/" 2>/dev/null; done
 done
